@@ -278,6 +278,30 @@ def run(ck):
                     row = rows[-1]
                     if cls == "MetricEvaluator":
                         ck.check(fl == row, "C17.R3", cls + ":csv header == row keys", m.site(), "CSV header %s differs from the keys of a written row %s" % (fl, row))
+                        # the log "agrees with the values computed at those epochs": what is written under a metric's name is the recorded
+                        # value itself, not something derived from it (a rounded / formatted copy)
+                        rowd = None
+                        for w in csvw:
+                            for nme, a, k in w.attrs.get("__calls__", []):
+                                if nme == "writerow" and a and isinstance(a[0], VDict) and a[0].obj.items is not None:
+                                    rowd = a[0].obj.items
+                        recorded = {}
+                        for lst in (pv, acc.get("run2", {}).get("pv")):
+                            for rec_ in (it.concrete_items(lst) or []) if lst is not None else []:
+                                parts = it.concrete_items(rec_) if isinstance(rec_, (VTuple, VList)) else None
+                                d_ = parts[1] if parts and len(parts) == 2 else None
+                                if isinstance(d_, VDict) and d_.obj.items is not None:
+                                    for k_, v_ in d_.obj.items.items():
+                                        recorded.setdefault(k_, []).append(v_)
+                        if rowd is not None and recorded:
+                            for k_, v_ in rowd.items():
+                                if k_ == "epoch" or k_ not in recorded:
+                                    continue
+                                same = any(v_ is x or (getattr(v_, "term", None) is not None and getattr(v_, "term", None) == getattr(x, "term", 0)) or
+                                           (isinstance(v_, VUnknown) and isinstance(x, VUnknown) and v_.tag == x.tag) for x in recorded[k_])
+                                ck.check(bool(same), "C17.R3", cls + ":csv row holds the recorded value of %s" % k_, m.site(),
+                                         "the CSV row holds %r under %r, which is none of the values recorded for the evaluations (%s): the log does not agree with the computed values "
+                                         "(a formatted / rounded copy loses small values entirely)" % (v_, k_, [repr(x) for x in recorded[k_]][:3]), key="C17.R3|MetricEvaluator|csv value")
                     else:
                         ck.check(set(fl) <= set(row) and fl[0] == "epoch", "C17.R3", cls + ":csv header within row keys", m.site(), "CSV header fields %s are not all produced by a row %s" % (fl, row))
                         want = ["epoch"] + ["%s_%s" % (o, s) for o in want_keys for s in ("mean", "variance", "std_error")]
